@@ -107,10 +107,56 @@ impl PeerM {
 
 type Model = BTreeMap<usize, PeerM>;
 
+/// BFS state, kept small (millions are stored): the history as indices into the alphabet
+/// and the model packed into one byte per peer.
 #[derive(Clone)]
 struct St {
-    hist: Vec<Ev>,
-    model: Model,
+    hist: Vec<u8>,
+    model: [u8; 4],
+}
+
+fn pack(m: &Model) -> [u8; 4] {
+    let mut out = [0u8; 4];
+    for (p, pm) in m {
+        let mut b = 1u8;
+        for c in &pm.conns {
+            b |= 2 << c;
+        }
+        if pm.trusted {
+            b |= 8;
+        }
+        for (i, t) in TAGS.iter().enumerate() {
+            if pm.tags.contains(t) {
+                b |= 16 << i;
+            }
+        }
+        b |= match pm.expired {
+            Expired::No => 0,
+            Expired::Yes => 64,
+            Expired::Unknown => 128,
+        };
+        out[*p] = b;
+    }
+    out
+}
+
+fn unpack(x: &[u8; 4]) -> Model {
+    let mut m = Model::new();
+    for (p, b) in x.iter().enumerate() {
+        if b & 1 == 0 {
+            continue;
+        }
+        m.insert(
+            p,
+            PeerM {
+                conns: (0..CONNS).filter(|c| b & (2 << c) != 0).collect(),
+                trusted: b & 8 != 0,
+                tags: TAGS.iter().enumerate().filter(|(i, _)| b & (16 << i) != 0).map(|(_, t)| *t).collect(),
+                expired: if b & 64 != 0 { Expired::Yes } else if b & 128 != 0 { Expired::Unknown } else { Expired::No },
+            },
+        );
+    }
+    m
 }
 
 /// Snapshot of everything observable on the real tracker.
@@ -417,31 +463,36 @@ fn main() {
         }
     } else {
         // (peers, depth): the alphabet grows with the number of peers
-        let plans: &[(usize, usize)] = ctx.tier.pick(&[(2, 6), (3, 5)][..], &[(2, 8), (3, 7), (4, 6)][..]);
+        let plans: &[(usize, usize)] = ctx.tier.pick(&[(2, 6), (3, 5)][..], &[(2, 8), (3, 7), (4, 5)][..]);
         let mut plan_out = vec![];
         for &(peers, depth) in plans {
             let ops = alphabet(peers);
             let cfg = BfsConfig {
                 max_depth: depth,
-                max_states: ctx.tier.pick(3_000_000, 12_000_000),
-                wall_cap: Duration::from_secs(ctx.tier.pick(40, 500)),
+                max_states: ctx.tier.pick(3_000_000, 8_000_000),
+                wall_cap: Duration::from_secs(ctx.tier.pick(40, 700)),
                 dedup: true,
             };
-            let init = St { hist: vec![], model: Model::new() };
+            let init = St { hist: vec![], model: [0; 4] };
             let k0 = obs_key(&observe(&VPeerTracker::new(), peers));
             let mut r = Report::new();
+            let codes: Vec<u8> = (0..ops.len() as u8).collect();
+            #[derive(Clone, Serialize)]
+            #[serde(transparent)]
+            struct Code(Ev);
             bfs(
                 init,
                 k0,
                 &cfg,
-                |_s| ops.clone(),
-                |s, ev| {
-                    let mut t = rebuild(&s.hist);
-                    let (model, obs, class, violations) = transition(&mut t, &s.model, ev, peers);
+                |_s| ops.iter().cloned().map(Code).collect::<Vec<Code>>(),
+                |s, Code(ev)| {
+                    let past: Vec<Ev> = s.hist.iter().map(|c| ops[*c as usize].clone()).collect();
+                    let mut t = rebuild(&past);
+                    let (model, obs, class, violations) = transition(&mut t, &unpack(&s.model), ev, peers);
                     let mut hist = Vec::with_capacity(s.hist.len() + 1);
                     hist.extend_from_slice(&s.hist);
-                    hist.push(ev.clone());
-                    Step { next: St { hist, model }, key: obs_key(&obs), class, violations }
+                    hist.push(codes[ops.iter().position(|o| o == ev).unwrap()]);
+                    Step { next: St { hist, model: pack(&model) }, key: obs_key(&obs), class, violations }
                 },
                 &mut r,
             );
@@ -457,7 +508,7 @@ fn main() {
         &ctx,
         rep,
         Spec {
-            rule: "BFS over all histories of peer events from an empty tracker, de-duplicated on the complete observable view (per peer: connections, trusted, protection tags, archival, full, expired bit; published info; protected_len per tag). Alphabet per peer: add_peer_id, add/remove_connection x 2 connection ids, set_trusted(true/false), protect/unprotect x tags {1,2}, mark_as_archival, on_agent_version x 6 agent strings, age-disconnected(+121 s); plus gc. quick: 2 peers depth 6, 3 peers depth 5; thorough: 2 peers depth 8, 3 peers depth 7, 4 peers depth 6. After every transition: info() and the watcher == recount over peers(); connected/trusted counts == counts implied by the events; protected_len(tag) == number of peers protected with tag; return values of add_peer_id/protect/unprotect; gc keeps every connected or protected peer, keeps non-expired peers and drops expired unprotected disconnected ones. distinct = distinct observable states; every state is non-trivial except the initial one",
+            rule: "BFS over all histories of peer events from an empty tracker, de-duplicated on the complete observable view (per peer: connections, trusted, protection tags, archival, full, expired bit; published info; protected_len per tag). Alphabet per peer: add_peer_id, add/remove_connection x 2 connection ids, set_trusted(true/false), protect/unprotect x tags {1,2}, mark_as_archival, on_agent_version x 6 agent strings, age-disconnected(+121 s); plus gc. quick: 2 peers depth 6, 3 peers depth 5; thorough: 2 peers depth 8, 3 peers depth 7, 4 peers depth 5. After every transition: info() and the watcher == recount over peers(); connected/trusted counts == counts implied by the events; protected_len(tag) == number of peers protected with tag; return values of add_peer_id/protect/unprotect; gc keeps every connected or protected peer, keeps non-expired peers and drops expired unprotected disconnected ones. distinct = distinct observable states; every state is non-trivial except the initial one",
             assumptions: &[
                 "the GC clock is std::time::Instant, which cannot be paused: expiry is reached with the verif_age_disconnected hook (a peer is aged by 121 s; EXPIRED_AFTER is 120 s), a replay of a history takes microseconds so un-aged peers stay far from expiry",
                 "archival / full flags of a peer are read from the tracker's own per-peer accessors (the statement defines the statistics as a recount of the tracked peers); connections, trust and protection tags are modelled independently from the events",
